@@ -335,12 +335,8 @@ func (self *Lexer) makeNumber() Token {
 
 	self.advance()
 
-	for self.currentChar != nil && *self.currentChar == '_' {
-		self.advance()
-	}
-
 	lastEnd := startLocation
-	for self.currentChar != nil && util.IsDigit(*self.currentChar) {
+	for self.currentChar != nil && (util.IsDigit(*self.currentChar) || *self.currentChar == '_') {
 		value += string(*self.currentChar)
 		lastEnd = self.location
 		self.advance()
@@ -351,12 +347,13 @@ func (self *Lexer) makeNumber() Token {
 
 		value += string(*self.currentChar)
 		self.advance()
-		for self.currentChar != nil && util.IsDigit(*self.currentChar) {
+		for self.currentChar != nil && (util.IsDigit(*self.currentChar) || *self.currentChar == '_') {
 			value += string(*self.currentChar)
 			lastEnd = self.location
 			self.advance()
 		}
 	} else if self.currentChar != nil && *self.currentChar == 'f' {
+		lastEnd = self.location
 		self.advance()
 		kind = Float // this number is now a float
 	}
